@@ -544,6 +544,14 @@ class DataflowTransactionContext(ABC):  # pylint: disable=too-few-public-methods
                 # if the check is not related to the field, true_values and false_values will be universal sets
                 true_values, false_values = self._get_asserted(key, exit_ins_arg)
 
+                if len(block.next) == 1 and len(block.exit_instr.next) > 1:
+                    # bz/bnz jumps to the instruction right after it: the same block is reached
+                    # whether the branch is taken or not.
+                    self._path_contexts[key][block.next[0]][block] = self._union(
+                        key, true_values, false_values
+                    )
+                    continue
+
                 if len(block.next) == 1:
                     # happens when bz/bnz is the last instruction in the contract and there is no default branch
                     default_branch = None
